@@ -233,7 +233,7 @@ Return(p) ==
 Crash(p) ==                      \* SIGKILL: whatever the process had on disk stays there
     /\ p \in Procs
     /\ pc[p] \in Live
-    /\ Goto(p, "crashed") /\ Label("Crash", p)
+    /\ Goto(p, "crashed") /\ act' = <<"Crash", p, pc[p]>>       \* (the label names the boundary: vacuity guard)
     /\ UNCHANGED <<cfg, slot, tmp, net, left, mem, pend, res, att, fails, last, hit, taint>>
 
 ProbeStart(q) ==                 \* a later load: default arguments, healthy network, nobody else running
